@@ -365,3 +365,20 @@ def check_c15(ctx):
                  ENGINE_ASSUME + ["the restart clause is decided by correspondence + oracle on the storage-level model Eng (recovery scan, count rebuild), "
                                   "not by a theorem"],
                  real_profiles=[("seq", 8, 80)])
+
+
+def check_c17(ctx):
+    mods = ["WalrusVerif.Props.C17"]
+    if ctx.replay:
+        do_replay(ctx, mods, ["C17"])
+    engine_check(ctx, mods,
+                 [("marks", 300, 6000), ("restart", 60, 1500)],
+                 ["C17"],
+                 "random histories over 2 topics in which 45% of the operations are mark_topic_clean / mark_topic_dirty / topic_is_clean / a forced "
+                 "pass of the background persister (held otherwise, so the 'reopen immediately, before the persister ran' delay is the default), "
+                 "interleaved with appends, batches (also rejected ones), reads, clean close+open in one process and process restarts; oracle: "
+                 "every topic_is_clean answer equals what the latest returned append/mark call prescribes (clean for untouched topics), across "
+                 "any number of reopen events; non-trivial = distinct program that rotated a block, reopened or had a rejected operation",
+                 ENGINE_ASSUME + ["the persister thread is held by hook H3 and released only by the `persist` operation: every delay between the last "
+                                  "call and the shutdown is represented by 'persister ran' / 'persister did not run'",
+                                  "clean shutdown = the instance is dropped before the process ends (a killed process is C07/C09's crash model)"])
